@@ -216,6 +216,19 @@ def main(argv):
     tier = argv[2] if len(argv) > 2 else os.environ.get("VERIF_TIER", "quick")
     seed = int(os.environ.get("VERIF_SEED", "20260930"))
     ctx = Ctx(pid, tier, seed)
+    # watchdog: a check never hangs - if the implementation (or the check) stops making progress, report and exit
+    import threading
+    limit = int(os.environ.get("VERIF_WATCHDOG_S", "3000" if tier != "thorough" else "21600"))
+
+    def expired():
+        try:
+            ctx.obligation(f"check finishes within {limit} s", False, "watchdog expired: the implementation or the check did not terminate")
+            finish(ctx)
+        finally:
+            os._exit(1)
+    wd = threading.Timer(limit, expired)
+    wd.daemon = True
+    wd.start()
     try:
         base_obligations(ctx, clean=(tier == "thorough"))
         mod = importlib.import_module(f"props.{pid.lower()}")
@@ -226,6 +239,7 @@ def main(argv):
             mod.search(ctx)
     except Exception:
         ctx.obligation("check driver ran to completion", False, traceback.format_exc()[-3000:])
+    wd.cancel()
     return finish(ctx)
 
 
